@@ -1005,8 +1005,8 @@ func c13Shrink(ci any) []any {
 
 func init() {
 	register(&Prop{
-		ID: "C13",
-		Rule: "sequential cases (compared with the model): half BasicAuth, half KeyAuth; plus 1/8 as many overlapping streams (oracle only): ONE middleware instance, 2-3 requests with multi-value headers / several lookup sources, request i stops inside its k-th validator call (channels, no timing) until request i+1 has been served completely, every request judged on its own by the same oracle. Sequential cases: Basic: Authorization values assembled from scheme (casings, truncated, foreign, with U+017F / U+212A / invalid bytes) + separator (space, none, other) + payload (std base64 of user:password incl. empty parts, colons in the password, non-UTF-8; unpadded, URL alphabet, CR/LF inside, truncated, trailing garbage, foreign character, non-zero trailing bits, raw), 0-3 header lines, validator table keyed by credentials (the intended pair + near misses such as the split at the last colon) with outcomes true/false/error((false|true),err). Key: 1-3 lookup sources (header with scheme prefix / explicit cut prefix / none, query, form, cookie), 0-23 values per location with prefix variants, ErrorHandler absent / returns nil / passes / returns HTTPError, ContinueOnIgnoredError. Non-trivial = the validator was called or the base64 text was rejected; distinct = distinct model op lines",
+		ID:             "C13",
+		Rule:           "sequential cases (compared with the model): half BasicAuth, half KeyAuth; plus 1/8 as many overlapping streams (oracle only): ONE middleware instance, 2-3 requests with multi-value headers / several lookup sources, request i stops inside its k-th validator call (channels, no timing) until request i+1 has been served completely, every request judged on its own by the same oracle. Sequential cases: Basic: Authorization values assembled from scheme (casings, truncated, foreign, with U+017F / U+212A / invalid bytes) + separator (space, none, other) + payload (std base64 of user:password incl. empty parts, colons in the password, non-UTF-8; unpadded, URL alphabet, CR/LF inside, truncated, trailing garbage, foreign character, non-zero trailing bits, raw), 0-3 header lines, validator table keyed by credentials (the intended pair + near misses such as the split at the last colon) with outcomes true/false/error((false|true),err). Key: 1-3 lookup sources (header with scheme prefix / explicit cut prefix / none, query, form, cookie), 0-23 values per location with prefix variants, ErrorHandler absent / returns nil / passes / returns HTTPError, ContinueOnIgnoredError. Non-trivial = the validator was called or the base64 text was rejected; distinct = distinct model op lines",
 		New:            func() any { return &c13Case{} },
 		Gen:            c13Gen,
 		Run:            c13Run,
